@@ -72,6 +72,63 @@ class Junk:
         return "Junk(%s)" % _pp(self.n)
 
 
+class CutSeg:
+    """data[lo:hi] of CONCRETE bytes with a symbolic upper bound (a torn write, a truncation).
+    lo is a concrete int; hi is a BV64 term with lo <= hi <= len(data) in the path condition."""
+    __slots__ = ("data", "lo", "hi")
+
+    def __init__(self, data, lo, hi):
+        self.data, self.lo, self.hi = data, lo, hi
+
+    def __repr__(self):
+        return "Cut(%r...[%d:%s])" % (self.data[:12], self.lo, _pp(self.hi))
+
+
+def cut_cond(seg, pred):
+    """z3 condition on seg.hi equivalent to pred(seg.data[seg.lo:hi]) -- built from a table over the
+    (concrete) candidate lengths, merged into ranges."""
+    n = len(seg.data)
+    vals = [v for v in range(seg.lo, n + 1) if pred(seg.data[seg.lo:v])]
+    if not vals:
+        return False
+    if len(vals) == n + 1 - seg.lo:
+        return True
+    ranges = []
+    start = prev = vals[0]
+    for v in vals[1:]:
+        if v == prev + 1:
+            prev = v
+            continue
+        ranges.append((start, prev))
+        start = prev = v
+    ranges.append((start, prev))
+    hi = _bv(seg.hi)
+    conds = []
+    for a, b in ranges:
+        if a == b:
+            conds.append(hi == a)
+        else:
+            conds.append(z3.And(z3.UGE(hi, z3.BitVecVal(a, W)), z3.ULE(hi, z3.BitVecVal(b, W))))
+    return z3.Or(*conds) if len(conds) > 1 else conds[0]
+
+
+def resolve_cuts(sbv, ctx):
+    """Replace every CutSeg whose bound is determined by the path condition with concrete bytes."""
+    if not any(isinstance(s, CutSeg) for s in sbv.segs):
+        return sbv
+    out = []
+    for s in sbv.segs:
+        if isinstance(s, CutSeg) and ctx is not None:
+            m = ctx.model()
+            if m is not None:
+                v = m.eval(_bv(s.hi), model_completion=True).as_long()
+                if ctx.known(_bv(s.hi) == v):
+                    out.append(s.data[s.lo:v])
+                    continue
+        out.append(s)
+    return SBytes(out)
+
+
 class Atom:
     __slots__ = ("kind", "payload", "a", "b")
 
@@ -220,6 +277,8 @@ def seg_len(s):
         return s.n
     if isinstance(s, SymByte):
         return 1
+    if isinstance(s, CutSeg):
+        return z3.simplify(_bv(s.hi) - z3.BitVecVal(s.lo, W))
     if isinstance(s, Atom):
         if s.a is not None:
             return s.b - s.a
@@ -264,6 +323,8 @@ def seg_key(s):
         return ("junk", s.id, _tkey(s.n))
     if isinstance(s, SymByte):
         return ("symbyte", s.bv.get_id())
+    if isinstance(s, CutSeg):
+        return ("cut", s.data, s.lo, _tkey(s.hi))
     if isinstance(s, Atom):
         return ("atom",) + s.key()
     raise TypeError(s)
@@ -416,11 +477,16 @@ def _subseg(s, lo, hi, ln):
     if _same_term(lo, 0) and _same_term(hi, ln):
         return s
     if isinstance(s, bytes):
-        if is_sym(lo) or is_sym(hi):
-            # symbolic cut through concrete bytes: keep as junk of that length (content-dependent
-            # uses will be inconclusive rather than wrong)
+        if is_sym(lo):
+            # symbolic START inside concrete bytes: content-dependent uses will be inconclusive
             return Junk(("cut", s, _tkey(lo), _tkey(hi)), _sub(hi, lo))
+        if is_sym(hi):
+            return CutSeg(s, lo, hi)
         return s[lo:hi]
+    if isinstance(s, CutSeg):
+        if is_sym(lo):
+            return Junk(("cut2", s.data, _tkey(lo), _tkey(hi)), _sub(hi, lo))
+        return CutSeg(s.data, s.lo + lo, _add(s.lo, hi) if not _same_term(hi, ln) else s.hi)
     if isinstance(s, BlobSeg):
         return BlobSeg(s.blob, _add(s.a, lo), _add(s.a, hi))
     if isinstance(s, Fill):
@@ -574,10 +640,19 @@ def _content_eq_inner(c1, c2, ctx):
             if not conds:
                 return True
             return z3.And(*conds) if len(conds) > 1 else conds[0]
+    # a symbolic cut of concrete bytes against concrete bytes (single segments)
+    for x, y in ((c1, c2), (c2, c1)):
+        if len(x.segs) == 1 and isinstance(x.segs[0], CutSeg) and y.is_concrete():
+            want = y.concrete()
+            return cut_cond(x.segs[0], lambda b: b == want)
+    if all(isinstance(t, (bytes, CutSeg)) for t in c1.segs + c2.segs) and (c1.has_kind(CutSeg) or c2.has_kind(CutSeg)):
+        r = _cut_general_eq(c1, c2)
+        if r is not None:
+            return r
     # concrete digest text versus the digest atom of symbolic content (ideal hash)
     for x, y in ((c1, c2), (c2, c1)):
         if len(y.segs) == 1 and isinstance(y.segs[0], Atom) and y.segs[0].kind in ("hex", "b64") \
-                and y.segs[0].payload.raw is None and all(isinstance(t, (bytes, SymByte)) for t in x.segs):
+                and y.segs[0].payload.raw is None and all(isinstance(t, (bytes, SymByte, CutSeg)) for t in x.segs):
             return _text_vs_digest_atom(x, y.segs[0], ctx)
     # expand bytes vs symbytes of differing segmentation
     e = _bytewise_eq(c1, c2)
@@ -605,6 +680,8 @@ def _text_vs_digest_atom(text, atom, ctx):
         if atom.a is not None:
             enc = enc[atom.a:atom.b]
         te = _bytewise_eq(text, SBytes.of(enc))
+        if te is None and text.has_kind(CutSeg):
+            te = _cut_general_eq(text, SBytes.of(enc))
         if te is False or te is None:
             continue
         ce = content_eq(d.content, content, ctx)
@@ -617,6 +694,36 @@ def _text_vs_digest_atom(text, atom, ctx):
     if not conds:
         return False
     return z3.Or(*conds) if len(conds) > 1 else conds[0]
+
+
+def _cut_general_eq(c1, c2):
+    """bytes/Cut sequences where at most one side ends in a Cut and the other is concrete, or both
+    are prefix cuts of concrete data: compare through the single symbolic bound."""
+    def shape(c):
+        pre = b""
+        for i, t in enumerate(c.segs):
+            if isinstance(t, bytes):
+                pre += t
+            else:
+                if i != len(c.segs) - 1:
+                    return None
+                return pre, t
+        return pre, None
+    s1, s2 = shape(c1), shape(c2)
+    if s1 is None or s2 is None:
+        return None
+    (p1, k1), (p2, k2) = s1, s2
+    if k1 is not None and k2 is None:
+        if not p2.startswith(p1):
+            return False
+        rest = p2[len(p1):]
+        return cut_cond(k1, lambda b: b == rest)
+    if k2 is not None and k1 is None:
+        if not p1.startswith(p2):
+            return False
+        rest = p1[len(p2):]
+        return cut_cond(k2, lambda b: b == rest)
+    return None
 
 
 def _zext(t, w, to):
